@@ -43,12 +43,12 @@ GATED_SITES = ['sm.flush.snapshot', 'sm.rotate.begin', 'sm.rotate.marked', 'sm.r
                'sst.finish.presync', 'sst.finish.synced', 'sst.finish.renamed', 'sm.flush.table.renamed', 'sm.flush.table.published']
 
 
-def gated(ctx, site, imm, tag='g'):
-    d = ctx.sub(f'lin-{tag}-{site}-{int(imm)}')
+def gated(ctx, site, imm, tag='g', extra=()):
+    d = ctx.sub(f"lin-{tag}-{site}-{int(imm)}-{'-'.join(extra)}")
     import shutil
     shutil.rmtree(os.path.join(d, 'db'), ignore_errors=True)
     out = os.path.join(d, 'trace.ndjson')
-    args = [ctx.kvh(), 'lin-gated', '-dir', os.path.join(d, 'db'), '-out', out, '-site', site] + (['-imm'] if imm else [])
+    args = [ctx.kvh(), 'lin-gated', '-dir', os.path.join(d, 'db'), '-out', out, '-site', site] + (['-imm'] if imm else []) + list(extra)
     try:
         p = subprocess.run(args, capture_output=True, text=True, timeout=120)
     except subprocess.TimeoutExpired:
@@ -109,9 +109,12 @@ def check_C06(ctx):
         path = save_replay(ctx, 'lin', {'args': recs[i][1][1:], 'trace': runs[i]})
         ctx.violations.append({'what': what, 'replay': path})
     # deterministic interleavings: the flush path parked at each of its steps while clients write and read
-    jobs = [(s_, imm) for s_ in GATED_SITES for imm in (False, True)]
+    jobs = [(s_, imm, ()) for s_ in GATED_SITES for imm in (False, True)]
+    # and the other way round: a WRITER parked inside its append / insert while the flush path (rotation) runs against it
+    jobs += [(s_, False, ('-parkwriter', '-sync', str(sy))) for s_ in ('wal.append.written', 'wal.sync.flushed', 'sm.put.logged', 'sl.insert.node_next')
+             for sy in (2, 1)]
     with cf.ThreadPoolExecutor(max_workers=10) as ex:
-        grecs = list(ex.map(lambda j: gated(ctx, j[0], j[1]), jobs))
+        grecs = list(ex.map(lambda j: gated(ctx, j[0], j[1], extra=list(j[2])), jobs))
     reached = [(j, r) for j, r in zip(jobs, grecs) if not any(e.get('e') == 'notreached' for e in r[0])]
     if len(reached) < len(GATED_SITES):
         raise Infra(f'only {len(reached)} gated scenarios reached their hook site (hooks renamed or removed?)')
@@ -122,7 +125,7 @@ def check_C06(ctx):
         ctx.nontrivial.add(('gated',) + j)
     for i in validate_parallel(ctx, [r[0] for j, r in reached], 'gated', groups=4)[:3]:
         j, r = reached[i]
-        r2 = gated(ctx, j[0], j[1], tag='repro')
+        r2 = gated(ctx, j[0], j[1], tag='repro', extra=list(j[2]))
         if not validate_batch(ctx, 'KevoLin', 'KevoLin.cfg', [r2[0]], f'gated-repro{i}', done_inv='NotDone'):
             ctx.unreproduced.append({'what': f'gated at {j}'})
             continue
